@@ -81,6 +81,16 @@ CHECKS = {
             "propagator arguments and non-zero shifts/offsets.",
             "dense references (dim <= 1500); P&C at unlimited bond dimension for the thermal runs",
             "DESIGN.md section 3 / C10"),
+    "C13": ("exploration",
+            "alias monitor: fingerprints (todense*coeff) of ALL live objects are recorded before and re-computed after "
+            "every public call of a generated history; second phase mutates one object in place and observes the others; "
+            "np.shares_memory recorded as diagnostic",
+            "Histories over pools of states (bond dimensions below and above their own limit), density operators and "
+            "operators: every state-producing and measuring call incl. every evolution scheme in real and imaginary time "
+            "with zero and non-zero offset, then in-place mutations through the public API.",
+            "fingerprint ignores gauge changes by construction; documented exemptions (OFS Hamiltonian, optimiser guess) "
+            "are not generated; prod(d) <= 120",
+            "DESIGN.md section 3 / C13"),
     "C15": ("exploration",
             "reference-model monitor over generated expression programs: each node is evaluated with the library's "
             "operators and denoted as a dense matrix that must equal the matrix expression of its operands; eq/hash laws",
